@@ -22,6 +22,8 @@ pub struct Module {
     pub name: String,
     pub imports: Vec<(Vec<String>, String)>,
     pub decls: Vec<Decl>,
+    /// number of own declarations written BEFORE the import lines (Modules.tla: ipos)
+    pub ipos: usize,
 }
 
 pub struct Rendered {
@@ -55,6 +57,7 @@ pub fn from_case(case: &Value) -> Vec<Module> {
         .iter()
         .enumerate()
         .map(|(i, ds)| Module {
+            ipos: case.get("ipos").and_then(|p| p.get(i)).and_then(|x| x.as_u64()).unwrap_or(0) as usize,
             dir: Vec::new(),
             name: format!("m{}", i + 1),
             imports: imports[i].as_array().unwrap().iter().map(|j| (Vec::new(), format!("m{}", j.as_u64().unwrap()))).collect(),
@@ -77,6 +80,7 @@ pub fn from_json(v: &Value) -> Vec<Module> {
         .expect("modules")
         .iter()
         .map(|m| Module {
+            ipos: m.get("ipos").and_then(|x| x.as_u64()).unwrap_or(0) as usize,
             dir: strs(&m["dir"]),
             name: m["name"].as_str().unwrap().to_string(),
             imports: m["imports"].as_array().unwrap().iter().map(|i| (strs(&i["dir"]), i["name"].as_str().unwrap().to_string())).collect(),
@@ -98,7 +102,7 @@ pub fn to_json(mods: &[Module]) -> Value {
     json!(mods
         .iter()
         .map(|m| json!({
-            "dir": m.dir, "name": m.name,
+            "dir": m.dir, "name": m.name, "ipos": m.ipos,
             "imports": m.imports.iter().map(|(d, n)| json!({"dir": d, "name": n})).collect::<Vec<_>>(),
             "decls": m.decls.iter().map(|d| json!({"n": d.n, "k": d.k, "pub": d.public, "body": true})).collect::<Vec<_>>(),
         }))
@@ -137,15 +141,25 @@ pub fn render(mods: &[Module], with_probes: bool) -> Rendered {
         let mut src = String::new();
         let mut line = 0;
         let mut il = Vec::new();
-        for (d, n) in &m.imports {
-            src.push_str(&format!("import \"{}\";\n", path_text(d, n)));
-            line += 1;
-            il.push(line);
-        }
-        for d in &m.decls {
+        // the import lines follow the first `ipos` own declarations (the rule does not care where they stand)
+        for (x, d) in m.decls.iter().enumerate() {
+            if x == m.ipos {
+                for (d, n) in &m.imports {
+                    src.push_str(&format!("import \"{}\";\n", path_text(d, n)));
+                    line += 1;
+                    il.push(line);
+                }
+            }
             src.push_str(&decl_line(d));
             src.push('\n');
             line += 1;
+        }
+        if m.ipos >= m.decls.len() {
+            for (d, n) in &m.imports {
+                src.push_str(&format!("import \"{}\";\n", path_text(d, n)));
+                line += 1;
+                il.push(line);
+            }
         }
         let mut pl = Vec::new();
         if with_probes {
@@ -210,6 +224,7 @@ pub fn random(rng: &mut Rng) -> Vec<Module> {
             name: format!("m{i}"),
             imports: Vec::new(),
             decls: Vec::new(),
+            ipos: 0,
         })
         .collect();
     for i in 0..n {
@@ -239,6 +254,12 @@ pub fn random(rng: &mut Rng) -> Vec<Module> {
             mods[i].imports.push((Vec::new(), "nowhere".to_string()));
         }
     }
+    // where the import lines stand: drawn last, so that the sets of a seed stay what they were
+    for i in 0..n {
+        if rng.chance(50) {
+            mods[i].ipos = rng.range(0, mods[i].decls.len());
+        }
+    }
     mods
 }
 
@@ -249,11 +270,14 @@ pub fn project(files: &[(String, String)]) -> Result<Vec<Module>, String> {
     for (path, source) in files {
         let decls = pvh::alpha::parse(source, path);
         let (dir, name) = split_path(path);
-        let mut m = Module { dir, name, imports: Vec::new(), decls: Vec::new() };
+        let mut m = Module { dir, name, imports: Vec::new(), decls: Vec::new(), ipos: 0 };
         for d in &decls {
             match d {
                 Declaration::Import { filename, .. } => {
                     let (d, n) = split_path(filename);
+                    if m.imports.is_empty() {
+                        m.ipos = m.decls.len();
+                    }
                     m.imports.push((d, n));
                 }
                 Declaration::Poison(_) => return Err(format!("parse error in {path}")),
